@@ -559,6 +559,46 @@ theorem offer_recipient_data_ignores_metadata_record (pubOf : Bytes → Bytes) (
 example : offerCovered true [⟨[22], [22, 1, 9]⟩] = offerCovered true [⟨[4], [4, 2, 7, 7]⟩, ⟨[22], [22, 1, 9]⟩] := by
   decide
 
+/-- Payer side: on an ascending invoice stream every record of the offer range 1..80, of the
+    invoice-request range 80..160 (minus the payer id when the payer key is derived) and of the
+    experimental offer/invoice-request ranges is part of the MAC input of the payer metadata; the
+    invoice's own records (160..240, 3·10⁹…) are the recipient's and are not. -/
+theorem invoice_covered_complete (d : Bool) (rs : List Rec) (hasc : rs.Pairwise (fun a b => a.ty < b.ty))
+    (r : Rec) (hr : r ∈ rs)
+    (hin : (1 ≤ r.ty ∧ r.ty < 80) ∨ (80 ≤ r.ty ∧ r.ty < 160 ∧ (r.ty ≠ 88 ∨ d = false)) ∨
+           (1000000000 ≤ r.ty ∧ r.ty < 3000000000)) :
+    r ∈ invoiceCovered d rs := by
+  unfold invoiceCovered
+  rcases hin with ⟨h1, h2⟩ | ⟨h1, h2, h3⟩ | ⟨h1, h2⟩
+  · exact List.mem_append_left _ (List.mem_append_left _ (mem_rangeRecs _ _ rs r hasc hr h1 h2))
+  · apply List.mem_append_left
+    apply List.mem_append_right
+    rw [List.mem_filter]
+    refine ⟨mem_rangeRecs _ _ rs r hasc hr h1 h2, ?_⟩
+    simp only [PAYER_METADATA_TYPE, INVOICE_REQUEST_PAYER_ID_TYPE, bne_iff_ne, ne_eq, Bool.and_eq_true,
+      Bool.or_eq_true, Bool.not_eq_true']
+    exact ⟨by omega, h3⟩
+  · exact List.mem_append_right _ (mem_rangeRecs _ _ rs r hasc hr h1 h2)
+
+theorem invoice_own_records_not_covered (d : Bool) (rs : List Rec) :
+    ∀ r ∈ invoiceCovered d rs, ¬ (160 ≤ r.ty ∧ r.ty < 1000000000) ∧ r.ty ≠ 0 := by
+  intro r hr
+  unfold invoiceCovered at hr
+  rcases List.mem_append.mp hr with h | h
+  · rcases List.mem_append.mp h with h | h
+    · have := rangeRecs_in_range _ _ rs r h
+      simp only [OFFER_TYPES_LO, OFFER_TYPES_HI] at this
+      omega
+    · have := rangeRecs_in_range _ _ rs r (List.mem_filter.mp h).1
+      simp only [INVOICE_REQUEST_TYPES_LO, INVOICE_REQUEST_TYPES_HI] at this
+      omega
+  · have := rangeRecs_in_range _ _ rs r h
+    simp only [EXPERIMENTAL_OFFER_TYPES_LO, EXPERIMENTAL_INVOICE_REQUEST_TYPES_HI] at this
+    omega
+
+example : invoiceCovered true [⟨[0], [0, 1, 5]⟩, ⟨[88], [88, 1, 9]⟩, ⟨[160], [160, 0]⟩] = [] := by decide
+example : invoiceCovered false [⟨[0], [0, 1, 5]⟩, ⟨[88], [88, 1, 9]⟩, ⟨[160], [160, 0]⟩] = [⟨[88], [88, 1, 9]⟩] := by decide
+
 end metadata
 
 /-! ## constants: the literals the models use are the ones in the Rust source (regenerated each run) -/
